@@ -6,6 +6,7 @@ package main
 import (
 	"bytes"
 	"errors"
+	"fmt"
 	"io"
 
 	"github.com/osteele/liquid"
@@ -57,12 +58,28 @@ var _ io.Writer = (*faultWriter)(nil)
 
 // the errors a failing writer hands out: the harness's own, and the ones the io package itself uses (a writer that
 // accepted part of the data says io.ErrShortWrite - io.MultiWriter does; a closed pipe; an end of file)
-var writerErrors = []error{errWriter, io.ErrShortWrite, io.ErrClosedPipe, io.EOF}
+var writerErrors = []error{errWriter, io.ErrShortWrite, io.ErrClosedPipe, io.EOF, errList{errors.New("first"), errors.New("second")}}
+
+// errList: an error whose dynamic type cannot be a map key or be compared (a list of errors, as go/scanner.ErrorList)
+type errList []error
+
+func (l errList) Error() string { return fmt.Sprintf("%d errors", len(l)) }
+
+func sameErr(e, want error) bool {
+	if l, ok := want.(errList); ok { // (not comparable)
+		g, ok := e.(errList)
+		return ok && len(g) == len(l) && len(l) > 0 && g[0] == l[0]
+	}
+	if _, ok := e.(errList); ok {
+		return false
+	}
+	return e == want || errors.Is(e, want)
+}
 
 func carries(err liquid.SourceError, want error) bool {
 	var e error = err
 	for i := 0; i < 20 && e != nil; i++ {
-		if e == want || errors.Is(e, want) {
+		if sameErr(e, want) {
 			return true
 		}
 		c, ok := e.(interface{ Cause() error })
